@@ -196,6 +196,38 @@ def run(rep: vk.Report):
                 nontrivial.add(te)
         for n, p in params.items():
             p.set(saved[n])
+    # ---- the formula as the user WROTE it: API constructions against an independent NumPy function of the element values
+    written = written_bad = 0
+    written_err = {}
+    for rnd_ in range(3 if rep.tier == "quick" else 60):
+        wr = random.Random(rng.random())
+        for label, build, ref, names in common.written_catalogue(wr, tag=f"w{rnd_}_"):
+            try:
+                e = build()
+            except Exception as ex:
+                written_err[type(ex).__name__] = written_err.get(type(ex).__name__, 0) + 1
+                continue
+            vs = sorted(e.get_variables(), key=lambda v: v.name)
+            V = common.orders(vs, [Variable("extra0")] if wr.random() < 0.5 else [], wr)
+            try:
+                fns = build_all(e, V)
+            except CompileTimeError as ex:
+                rep.violation({"kind": "exception", "obligation": "every API-built scalar expression can be compiled (build_total)",
+                               "expr": label, "V": [v.name for v in V], "error": repr(ex)[:500]}, concrete=True)
+                continue
+            vals = {v.name: wr.choice(common.NICE) for v in V}
+            for t in names:
+                vals.setdefault(t, wr.choice(common.NICE))
+            x = np.array([vals[v.name] for v in V], dtype=float)
+            want = ref(vals)
+            obs = observe_calls(fns, V, x)
+            written += 1
+            off = {k_: v_ for k_, v_ in obs.items() if not k_.startswith("int:") and not (isinstance(v_, float) and np.isclose(v_, want, rtol=1e-9, atol=1e-9))}
+            if off:
+                written_bad += 1
+                rep.violation({"kind": "numpy", "obligation": "compiled value = tree value = the value of the formula as written (NumPy on the element values)",
+                               "witness": {"formula": label, "V": [v.name for v in V], "point": vals, "numpy": want,
+                                           "paths_that_differ": {k_: str(v_) for k_, v_ in off.items()}}}, concrete=True)
     fails, und = common.run_classify(IMPORTS, "", common.NUM_TYPE, cases, common.NUM_CHECKER) if cases else ([], [])
     if partial:
         pf, pu = common.run_classify(IMPORTS, "", common.NUM_TYPE, partial, common.NUM_CHECKER)
@@ -239,6 +271,8 @@ def run(rep: vk.Report):
     cov["unsupported_by_serialiser"] = unsupported
     cov["exceptions"] = errors
     cov["correspondence_failures"] = len(fails)
+    cov["formulas_as_written_checked_against_numpy"] = written
+    cov["formulas_as_written_construction_errors"] = written_err
     cov["traces_validated_against_impl"] = (len(cases) - len(und)) * 6
     rep.assumptions += ["binary64 primitives are within one outward rounding at 40 bits of the exact operation (numeric channel)",
                         "array-valued constants/parameters are outside the model"]
